@@ -344,3 +344,58 @@ func c02Offender(c *Ctx, idx int) {
 		}
 	}
 }
+
+// large: every builtin and core construct that walks an array, an object or a string,
+// over inputs of 1000 .. 100000 elements (around the powers of two where an
+// implementation might switch algorithm, buffer or integer width), against the model.
+var c02LargeSizes = []int{1000, 1023, 1024, 1025, 4095, 4096, 4097, 32767, 32768, 65535, 65536, 65537, 100000}
+
+var c02LargeForms = []string{"sum(xs)", "avg(xs)", "max(xs)", "min(xs)", "length(xs)", "sort(xs)[0]", "sort(xs)[-1]", "sort(xs) | [length(@), @[1], @[-2]]", "reverse(xs)[0]", "reverse(xs) | length(@)", "xs[?@ > `5`] | length(@)", "xs[*] | length(@)", "map(&(@ + `1`), xs) | [length(@), @[0], @[-1]]",
+	"length(join(',', strs))", "join('', strs) | length(@)", "sort(strs)[0]", "max(strs)", "min(strs)", "contains(xs, `-1`)", "contains(xs, xs[-1])", "contains(strs, strs[-1])", "xs[-1]", "xs[::2] | length(@)", "xs[::-1][0]", "[xs, xs][] | length(@)", "zip(xs, strs) | [length(@), @[-1]]",
+	"sort_by(rs, &k) | [length(@), @[0].id, @[-1].id]", "max_by(rs, &k).id", "min_by(rs, &k).id", "group_by(rs, &g) | keys(@) | sort(@)", "group_by(rs, &g).g0 | length(@)", "rs[*].k | sum(@)", "rs[?k > `3`].id | length(@)", "from_items(rs[*].[id, k]) | length(@)", "length(keys(obj))", "length(values(obj))", "length(items(obj))", "obj.k77", "merge(obj, {extra: `1`}) | length(@)", "sum(obj.*)",
+	"length(long)", "reverse(long) | length(@)", "long[::-1][0:3]", "long[-3:]", "find_first(long, 'z')", "find_last(long, 'a')", "split(long, 'b') | length(@)", "replace(long, 'a', 'xy') | length(@)", "length(split(long, ''))", "upper(long) | length(@)", "contains(long, 'ab')", "pad_left(long, n + `5`, '-') | length(@)", "trim(long, 'a') | length(@)", "starts_with(long, 'ab')", "ends_with(long, long[-4:])", "to_string(xs) | length(@)", "to_array(xs) | length(@)", "not_null(xs)[-1]", "xs == xs", "sort(xs) == sort(reverse(xs))", "length(xs[?@ == xs[0]])"}
+
+func c02LargeN(c *Ctx) int { return len(c02LargeSizes) * 4 }
+
+var c02LargeDocs = map[int]*ref.Obj{}
+
+func c02Large(c *Ctx, idx int) {
+	n := c02LargeSizes[idx%len(c02LargeSizes)]
+	part := idx / len(c02LargeSizes)
+	doc := c02LargeDocs[n]
+	if doc == nil {
+		xs, strs, rs := &ref.Arr{}, &ref.Arr{}, &ref.Arr{}
+		obj := ref.NewObj()
+		var long strings.Builder
+		for i := 0; i < n; i++ {
+			v := int64((i*7919 + 13) % 10007)
+			xs.E = append(xs.E, gen.IntV(v))
+			strs.E = append(strs.E, fmt.Sprintf("s%05d", v))
+			o := ref.NewObj()
+			o.Set("id", gen.IntV(int64(i)))
+			o.Set("k", gen.IntV(v%11))
+			o.Set("g", fmt.Sprintf("g%d", v%3))
+			rs.E = append(rs.E, o)
+			obj.Set(fmt.Sprintf("k%d", i), gen.IntV(v%5))
+			long.WriteString([]string{"a", "b", "é", "ab"}[i%4])
+		}
+		doc = ref.NewObj()
+		doc.Set("xs", xs)
+		doc.Set("strs", strs)
+		doc.Set("rs", rs)
+		doc.Set("obj", obj)
+		doc.Set("long", long.String())
+		doc.Set("n", gen.IntV(int64(n)))
+		c02LargeDocs = map[int]*ref.Obj{n: doc} // keep one
+	}
+	goDoc := ref.ToGo(doc, ref.JSONNumber)
+	for i, f := range c02LargeForms {
+		if i%4 != part {
+			continue
+		}
+		m, _ := c.CheckModel("C02", f, doc, goDoc, CheckOpts{Features: map[string]string{"stream": "large", "n": fmt.Sprint(n)}})
+		if !m.Unspec {
+			c.Nontrivial(f, fmt.Sprint(n))
+		}
+	}
+}
